@@ -27,13 +27,13 @@ struct Case {
     client_slow: bool,
     peer_slow: bool,
     /// 0 = client half-closes first (after sending everything), 1 = peer half-closes first,
-    /// 2 = nobody closes before it has received everything it expects
+    /// 2 = nobody closes before it has received everything it expects, 3 = the destination resets mid-download
     close: u8,
 }
 
 impl Case {
     fn json(&self) -> Value {
-        let order = ["client-first", "peer-first", "after-everything"][self.close as usize];
+        let order = ["client-first", "peer-first", "after-everything", "destination-resets-mid-download"][self.close as usize];
         json!({"kind":"l2-tunnel","index":self.index,"id":self.id,"protocol":if self.h2 {"h2"} else {"h1"},"up_bytes":self.up,"down_bytes":self.down,"up_chunk":self.up_chunk,"down_chunk":self.down_chunk,
                "client_reads_slowly":self.client_slow,"peer_reads_slowly":self.peer_slow,"close_order":order})
     }
@@ -62,7 +62,17 @@ const IDLE: Duration = Duration::from_secs(30);
 
 async fn peer(l: TcpListener, c: Case, progress: Arc<AtomicU64>) -> Side {
     let mut side = Side::default();
-    let Ok(Ok((s, _))) = tokio::time::timeout(Duration::from_secs(10), l.accept()).await else { side.error = Some("no connection from the endpoint".into()); return side };
+    let Ok(Ok((mut s, _))) = tokio::time::timeout(Duration::from_secs(10), l.accept()).await else { side.error = Some("no connection from the endpoint".into()); return side };
+    if c.close == 3 {
+        // the destination fails: it sends half of what the client expects and then resets the connection
+        let half = c.down / 2;
+        let _ = s.write_all(&coded_stream(c.id, 1, 0, half)).await;
+        tokio::time::sleep(Duration::from_millis(30)).await;
+        let _ = s.set_linger(Some(Duration::ZERO));
+        drop(s);
+        side.error = Some("destination reset the connection (by design of the case)".into());
+        return side;
+    }
     let (mut rd, mut wr) = s.into_split();
     let (eof_tx, eof_rx) = tokio::sync::oneshot::channel::<()>();
     let (all_tx, all_rx) = tokio::sync::oneshot::channel::<()>();
@@ -247,6 +257,14 @@ fn judge(rep: &Reporter, c: &Case, client: &Side, peer: &Side, lag_ms: u64) {
     }
     let up_complete = peer.got == c.up;
     let down_complete = client.got == c.down;
+    if c.close == 3 {
+        // a failure of the destination must tear the tunnel down: the client may have a prefix, but it must not be told
+        // that the stream ended normally (END_STREAM / close_notify)
+        if client.got > c.down / 2 { rep.violation("l2: more bytes delivered to the client than the destination sent", w("duplication")); }
+        else if client.eof && client.error.is_none() { rep.violation("l2: a reset by the destination reached the client as a clean end of stream (truncated download looks complete)", w("clean end after a destination reset")); }
+        else { rep.tally(&format!("l2 {}: destination reset -> client saw an abortive end", if c.h2 { "h2" } else { "h1" }), 1); }
+        return;
+    }
     match c.close {
         0 => {
             // the client ended its direction after sending everything: the destination must have seen all of it before the end
@@ -389,6 +407,9 @@ pub fn run_l2(rep: &Reporter, args: &Args) {
             if c.up > 20_000 && c.up_chunk < 7 { c.up_chunk = 7; }
             if c.down > 20_000 && c.down_chunk < 7 { c.down_chunk = 7; }
             cases.push(c);
+        }
+        for (k, (h2, down)) in [(true, 200_000usize), (false, 200_000), (true, 3000), (false, 3000), (true, 1_500_000), (false, 1_500_000)].into_iter().enumerate() {
+            cases.push(Case { index: 2_000_000 + k as u64, id: common::fnv(format!("c02l2-rst-{}-{}", seed, k).as_bytes()), h2, up: 0, down, up_chunk: 16_384, down_chunk: 16_384, client_slow: false, peer_slow: false, close: 3 });
         }
         // transfers larger than the HTTP/2 stream (128 KiB) and connection (8 MiB) windows, either direction, and on HTTP/1.1
         for (k, (h2, up, down)) in [(true, big, 3usize), (true, 3usize, big), (false, big / 2, big / 2), (true, big / 2, big / 2)].into_iter().enumerate() {
